@@ -199,7 +199,11 @@ class SeqRun(seq_hooks.HooksMixin, object):
                 layout.append((a.name, len(pa.columns), 'json' if a.is_json else a.is_rel))
                 cols.extend(pa.columns)
             pkcols = list(P._pk_columns_)
-            out['ent'][e.name] = ('SELECT %s FROM %s' % (', '.join(q(c) for c in pkcols + cols), q(P._table_)),
+            where = ''
+            if P._discriminator_attr_ is not None:
+                # single-table inheritance: the rows of exactly this class
+                where = " WHERE %s = '%s'" % (q(P._discriminator_attr_.column), P._discriminator_)
+            out['ent'][e.name] = ('SELECT %s FROM %s%s' % (', '.join(q(c) for c in pkcols + cols), q(P._table_), where),
                                   len(pkcols), layout)
             for a in e.sets():
                 if a.reverse.is_set and self.committed.canon(a) == (e.name, a.name):
@@ -381,7 +385,10 @@ class SeqRun(seq_hooks.HooksMixin, object):
             return m
         en = type(h).__name__
         pk = h._get_raw_pkval_() if h._pkval_ is not None else None
-        cands = [o for o in self.view.objs.values() if o.ent == en and o.pk is not None and o.pk == pk]
+        # (an object first seen as a bare reference has the class of the attribute that refers to it, i.e. possibly a
+        # base class, until its row is loaded: primary keys are unique over the hierarchy)
+        cands = [o for o in self.view.objs.values() if (o.ent == en or self.view._is_sub(o.ent, en))
+                 and o.pk is not None and o.pk == pk]
         if cands:
             o = cands[-1]
             prev = self.handles.get(o.mid)
